@@ -27,28 +27,35 @@ func sortNaturalFilter(array []any, key any) any {
 	case reflect.ValueOf(array).Len() == 0:
 	case key != nil:
 		sort.Sort(keySortable{result, func(m any) string {
-			rv := reflect.ValueOf(m)
+			// an element, and the property looked up in it, may be a drop
+			rv := reflect.ValueOf(values.ToLiquid(m))
 			kv := reflect.ValueOf(key)
 			if rv.Kind() != reflect.Map || !kv.Type().AssignableTo(rv.Type().Key()) {
 				return ""
 			}
 			ev := rv.MapIndex(kv)
 			if ev.IsValid() && ev.CanInterface() {
-				if s, ok := ev.Interface().(string); ok {
+				if s, ok := values.ToLiquid(ev.Interface()).(string); ok {
 					return strings.ToLower(s)
 				}
 			}
 			return ""
 		}})
-	case array[0] != nil && reflect.TypeOf(array[0]).Kind() == reflect.String:
+	case firstIsString(array):
 		sort.Sort(keySortable{result, func(s any) string {
-			if s, ok := s.(string); ok {
+			if s, ok := values.ToLiquid(s).(string); ok {
 				return strings.ToUpper(s)
 			}
 			return ""
 		}})
 	}
 	return result
+}
+
+// firstIsString reports whether the first element is a string, or a drop for one.
+func firstIsString(array []any) bool {
+	first := values.ToLiquid(array[0])
+	return first != nil && reflect.TypeOf(first).Kind() == reflect.String
 }
 
 type keySortable struct {
